@@ -283,6 +283,7 @@ func main() {
 	file := flag.String("file", "", "Go source file")
 	funcs := flag.String("funcs", "", "comma separated: Func or Recv.Method")
 	calls := flag.String("calls", "", "comma separated call-out method names")
+	consts := flag.String("consts", "", "comma separated package-level const/var names whose defining expression is printed")
 	flag.Parse()
 	fset := token.NewFileSet()
 	f, err := parser.ParseFile(fset, *file, nil, 0)
@@ -303,6 +304,40 @@ func main() {
 		}
 	}
 	found := map[string]bool{}
+	// package-level constants / variables the models take their numbers from: printed as written in the source
+	wantC := map[string]bool{}
+	for _, n := range strings.Split(*consts, ",") {
+		if n != "" {
+			wantC[n] = true
+		}
+	}
+	for _, d := range f.Decls {
+		gd, ok := d.(*ast.GenDecl)
+		if !ok || (gd.Tok != token.CONST && gd.Tok != token.VAR) {
+			continue
+		}
+		for _, sp := range gd.Specs {
+			vs := sp.(*ast.ValueSpec)
+			for i, id := range vs.Names {
+				if !wantC[id.Name] {
+					continue
+				}
+				val := "<no initialiser: iota/previous expression or zero value>"
+				if i < len(vs.Values) {
+					var sb strings.Builder
+					printer.Fprint(&sb, fset, vs.Values[i])
+					val = strings.Join(strings.Fields(sb.String()), " ")
+				}
+				fmt.Printf("%s %s = %s\n", gd.Tok, id.Name, val)
+				delete(wantC, id.Name)
+			}
+		}
+	}
+	for _, n := range strings.Split(*consts, ",") { // in the order asked for: deterministic output
+		if wantC[n] {
+			fmt.Printf("const %s MISSING\n", n)
+		}
+	}
 	for _, d := range f.Decls {
 		fd, ok := d.(*ast.FuncDecl)
 		if !ok || fd.Body == nil {
